@@ -217,3 +217,4 @@ def replay_witness(name):
     docs.quiet()
     doc, _ = witness_doc(name)
     return bool(WITNESSES[name](doc, real_line(doc)))
+doc_json = pm_corr.doc_json
